@@ -11,6 +11,8 @@
 //        `modern dialect=.. stdenv=.. optimize=.. fe=.. sp=.. ver=.. post=0|1` | `classic sp=..`
 //   `e <scratch dir> <args text hex> <path> <incdir>*` -> end-to-end outputs of all entry points for the file
 //   `r <n> <path> <incdir>*`             -> distinct outputs of n identical library / compile_modern calls
+//   `s <hex of text printed by run> <hex of text of compile_modern's result> <hex of its CLVM>`
+//                                        -> the `txt` verdict of `e` on given texts: equal | same-clvm | differ
 //   `x <scratch dir> <args text hex> <path> <incdir>*` -> same, verbose (raw texts) for replay diagnosis
 use std::cell::RefCell;
 use std::collections::HashMap;
@@ -239,6 +241,47 @@ fn run_tool_text(args: &[String]) -> String {
     let mut s = Stream::new(None);
     launch_tool(&mut s, args, "run", 2);
     s.get_value().decode()
+}
+
+/// hex of the CLVM a text denotes when read by the reader of the printer's own family (modern)
+fn modern_hex(text: &str) -> String {
+    let mut am = Allocator::new();
+    match parse_sexp(Srcloc::start("*run-output*"), text.bytes()) {
+        Ok(l) if l.len() == 1 => node_hex_of_sexp(&mut am, l[0].clone()),
+        _ => "E:".to_string(),
+    }
+}
+
+/// Does the text `run` printed stand for the program compile_modern emitted?  The property speaks of
+/// the CLVM, not of its spelling: the same value has several spellings (`()` / `0` for nil, `z` / "z" /
+/// 122 for one atom), and which SExp variant the compiler leaves in its result is not even a function of
+/// the source (relabel's HashMap<SExp, _> lookups, see DESIGN.md section 11), so identical texts are
+/// sufficient but not necessary.  When the texts differ they must read back - by one and the same
+/// reader - to the same CLVM, or `run`'s text must read back to the very bytes compile_modern emitted.
+fn text_verdict(run_text: &str, cm_text: &str, cm_hex: &str) -> &'static str {
+    if run_text == cm_text {
+        return "equal";
+    }
+    let r = modern_hex(run_text);
+    if r.starts_with("E:") || r.starts_with('!') {
+        return "differ";
+    }
+    if r == modern_hex(cm_text) || r == cm_hex {
+        "same-clvm"
+    } else {
+        "differ"
+    }
+}
+
+fn s_line(parts: &[&str]) -> String {
+    if parts.len() != 4 {
+        return "bad-input".to_string();
+    }
+    let dec = |h: &str| hex::decode(h).ok().and_then(|b| String::from_utf8(b).ok());
+    match (dec(parts[1]), dec(parts[2])) {
+        (Some(a), Some(b)) => text_verdict(&a, &b, parts[3]).to_string(),
+        _ => "bad-input".to_string(),
+    }
 }
 
 fn reassemble(a: &mut Allocator, text: &str) -> String {
@@ -571,11 +614,7 @@ fn e_line(parts: &[&str], verbose: bool) -> String {
         out.push(format!("run{}={h}", b01(flag)));
         out.push(format!("rt{}={}", b01(flag), &errhex(&t)[2..]));
         // the same text read by the reader of the printer's own family (modern)
-        let mut am = Allocator::new();
-        let hm = match parse_sexp(Srcloc::start("*run-output*"), t.bytes()) {
-            Ok(l) if l.len() == 1 => node_hex_of_sexp(&mut am, l[0].clone()),
-            _ => "E:".to_string(),
-        };
+        let hm = modern_hex(&t);
         out.push(format!("runm{}={hm}", b01(flag)));
         if verbose {
             out.push(format!("runtext{}={}", b01(flag), hex::encode(t.as_bytes())));
@@ -600,12 +639,12 @@ fn e_line(parts: &[&str], verbose: bool) -> String {
             Err(e) => errhex(&e),
         };
         out.push(format!("cm{}={v}", b01(flag)));
-        // does `run` print exactly what compile_modern's result prints as? (no reading involved)
+        // does `run` print the program compile_modern emitted?  equal texts, or texts that denote the same CLVM
         out.push(format!(
             "txt{}={}",
             b01(flag),
             match &cm_text {
-                Some(ct) => if *ct == t { "equal" } else { "differ" },
+                Some(ct) => text_verdict(&t, ct, &v),
                 None => "-",
             }
         ));
@@ -714,6 +753,7 @@ fn run_lines() {
             }
             "o" => o_line(&parts),
             "e" => e_line(&parts, false),
+            "s" => s_line(&parts),
             "r" => {
                 // `r <n> <path> <incdir>*`: the SAME calls repeated n times in this process ->
                 // the distinct outputs of the library entry and of compile_modern (-O / no -O)
